@@ -80,7 +80,7 @@ class Worker:
         self.proc = subprocess.Popen(
             [PY] + variant["flags"] + ["-m", "sim.runner"], cwd=VERIF, env=e,
             stdin=subprocess.PIPE, stdout=subprocess.PIPE, stderr=subprocess.PIPE,
-            text=True)
+            text=True, start_new_session=True)   # own process group: kill() takes the forks too
         self.proc.stdin.write(json.dumps(job))
         self.proc.stdin.close()
         self.q = q
@@ -89,6 +89,16 @@ class Worker:
         self.t.start()
         self.te = threading.Thread(target=self.pump_err, daemon=True)
         self.te.start()
+
+    def kill(self):
+        import signal
+        try:
+            os.killpg(self.proc.pid, signal.SIGKILL)
+        except (OSError, ProcessLookupError):
+            try:
+                self.proc.kill()
+            except OSError:
+                pass
 
     def pump(self):
         for line in self.proc.stdout:
@@ -196,18 +206,32 @@ def run_check(tier, seed, nworkers=None, nruns=None, budget_s=None, evidence_pat
         "slowest": [], "scenario_s": collections.Counter(),
     }
 
+    # hard wall limit for the whole check: the budget stops workers from *starting*
+    # runs, a run in progress may take its time (and a hung child up to its timeout);
+    # whatever is still going on when the hard limit is reached is abandoned and what
+    # was explored until then is reported
+    hard_s = budget_s + (270 if tier == "quick" else 600)
+
     def collect(workers):
         live = set(workers)
         last_msg = time.monotonic()
         stall_limit = 1800
         while live:
+            if time.monotonic() - t0 > hard_s:
+                agg["hard_limit_hit"] = sorted(live)
+                for wk in workers.values():
+                    try:
+                        wk.kill()
+                    except OSError:
+                        pass
+                break
             try:
-                w, msg = q.get(timeout=30)
+                w, msg = q.get(timeout=5)
             except queue.Empty:
                 if time.monotonic() - last_msg > stall_limit:
                     agg["harness_errors"].append("no worker output for %ds" % stall_limit)
                     for wk in workers.values():
-                        wk.proc.kill()
+                        wk.kill()
                     break
                 continue
             last_msg = time.monotonic()
@@ -273,7 +297,7 @@ def run_check(tier, seed, nworkers=None, nruns=None, budget_s=None, evidence_pat
                         agg["stopped_at_first"] = True
                         for wk in workers.values():
                             try:
-                                wk.proc.kill()
+                                wk.kill()
                             except OSError:
                                 pass
                         break
@@ -292,7 +316,7 @@ def run_check(tier, seed, nworkers=None, nruns=None, budget_s=None, evidence_pat
             elif ty == "exit":
                 live.discard(w)
                 if msg["code"] != 0 and not agg.get("stopped_at_first") and \
-                        w not in agg["start_failures"]:
+                        not agg.get("hard_limit_hit") and w not in agg["start_failures"]:
                     agg["harness_errors"].append(
                         "worker %d exited with %s: %s" % (w, msg["code"],
                                                           "".join(workers[w].err)[-1500:]))
@@ -302,7 +326,8 @@ def run_check(tier, seed, nworkers=None, nruns=None, budget_s=None, evidence_pat
     # ---- second phase: aim at the operation kinds that touched hidden state -------
     # (on a tree whose functions keep no state there is nothing to aim at and the
     # phase is skipped; it changes where the search looks, never the verdict)
-    if agg["state_probes"] and not agg.get("stopped_at_first") and not only and nruns is None:
+    if agg["state_probes"] and not agg.get("stopped_at_first") and not only and nruns is None \
+            and not agg.get("hard_limit_hit") and time.monotonic() - t0 < hard_s - 150:
         from sim import gen as G
         chosen = []
 
@@ -340,7 +365,8 @@ def run_check(tier, seed, nworkers=None, nruns=None, budget_s=None, evidence_pat
                                           for k, v in sorted(agg["state_probes"].items())[:20]},
                            "kinds": chosen, "runs_planned": idx - n}
         runs_before = agg["runs"]
-        collect(launch(assign2, max(90.0, left), extra_plan=extra))
+        collect(launch(assign2, min(max(90.0, left), hard_s - (time.monotonic() - t0) - 60),
+                       extra_plan=extra))
         agg["targeted"]["runs_executed"] = agg["runs"] - runs_before
         n = idx
     shutil.rmtree(tmp, ignore_errors=True)
@@ -539,6 +565,7 @@ def write_evidence(path, tier, seed, agg, wall, nviol, vs, nplan):
                                 "eth_utils.ValidationError", "CPython threads, gc, import system"],
                        "stub": []},
         "deadline_hit": agg["deadline_hit"],
+        "hard_limit_hit": agg.get("hard_limit_hit"),
         "harness_errors": agg["harness_errors"][:5],
         "runs_lost_to_harness_errors": sum(1 for e in agg["harness_errors"]
                                            if e.startswith("run ")),
